@@ -6,10 +6,11 @@ Local Open Scope N_scope.
 
 (* One case = one connection:
    (socket family, address[0] if address is not None, HTTPServer(protocol=...),
-    trusted_downstream, answers of the real getaddrinfo(AI_NUMERICHOST) on the strings that
-    may be handed to is_valid_ip, the requests in order) *)
+    trusted_downstream, HTTPServer(no_keep_alive=...), answers of the real
+    getaddrinfo(AI_NUMERICHOST) on the strings that may be handed to is_valid_ip,
+    the requests in order: header lines as sent + how the request goes) *)
 Definition input : Type :=
-  (family * option str * option str * list str * list (str * bool) * list request)%type.
+  (family * option str * option str * list str * bool * list (str * bool) * list raw_request)%type.
 
 Fixpoint lookup (t : list (str * bool)) (s : str) : option bool :=
   match t with
@@ -39,12 +40,17 @@ Fixpoint asked (gai : str -> bool) (c : ctx) (reqs : list request) : list str :=
 Definition view_obs (v : str * str) : obs := OList [OBytes (fst v); OBytes (snd v)].
 
 Definition ctx_of (i : input) : ctx :=
-  let '(fam, addr, proto, tr, _, _) := i in init_ctx fam addr proto false tr.
+  let '(fam, addr, proto, tr, _, _, _) := i in init_ctx fam addr proto false tr.
+Definition table_of (i : input) : list (str * bool) := let '(_, _, _, _, _, tbl, _) := i in tbl.
+(* header names classified by _normalize_header, keep-alive decided by _can_keep_alive *)
+Definition reqs_of (i : input) : list request :=
+  let '(_, _, _, _, nka, _, raws) := i in map (resolve nka) raws.
 
 (* observable: [context at each start_request; (remote_ip, protocol) seen by each handler;
    context after the connection is done; is_valid_ip on every table key] *)
 Definition run_case (i : input) : obs :=
-  let '(_, _, _, _, tbl, reqs) := i in
+  let tbl := table_of i in
+  let reqs := reqs_of i in
   let c := ctx_of i in
   let gai := gai_of tbl in
   if forallb (fun s => is_some (lookup tbl s)) (asked gai c reqs) then
@@ -174,13 +180,48 @@ Fixpoint check_ipv (keys : list str) (ipv : list bool) : bool :=
   | _, _ => false
   end.
 
+(* header names, declaratively: HTTP field names are case-insensitive *)
+Definition lc (s : str) : str := map lower_c s.
+Definition spec_kind (name : str) : hkind :=
+  let n := lc name in
+  if str_eqb n (lc n_xff) then HXff
+  else if str_eqb n (lc n_real) then HReal
+  else if str_eqb n (lc n_scheme) then HScheme
+  else if str_eqb n (lc n_proto) then HProto
+  else if str_eqb n (lc n_conn) then HConn
+  else HOther.
+Definition spec_resolve (nka : bool) (r : raw_request) : request :=
+  let hs := map (fun h => (spec_kind (fst h), snd h)) (fst r) in
+  (hs, match snd r with
+       | RBadHead => BadHead
+       | RFinish v11 => Finish (can_keep_alive nka v11 hs)
+       | RFinishRaises => FinishRaises
+       | RClose => Close
+       | RCloseRaises => CloseRaises
+       end).
+Definition spec_reqs (i : input) : list request :=
+  let '(_, _, _, _, nka, _, raws) := i in map (spec_resolve nka) raws.
+
 Definition check_case (i : input) (o : obs) : bool :=
-  let '(_, _, _, tr, tbl, reqs) := i in
+  let '(_, _, _, tr, _, tbl, _) := i in
   let c := ctx_of i in
-  match decode o with
-  | Some (p, s, f, v) =>
-      let keys := map fst tbl in
-      check_ipv keys v
-      && check_conn (view c) tr (lookup (combine keys v)) reqs p s f
-  | None => false
-  end.
+  (* the socket values handed to the server are plain (harness sanity) *)
+  plain_str (orig_ip c) && plain_str (orig_proto c)
+  && match decode o with
+     | Some (p, s, f, v) =>
+         let keys := map fst tbl in
+         check_ipv keys v
+         && check_conn (view c) tr (lookup (combine keys v)) (spec_reqs i) p s f
+     | None => false
+     end.
+
+(* the inputs on which the model's observable passes the checker (ProofsCheck: exactly these):
+   the table covers every string asked, the socket values are plain, and the recorded
+   getaddrinfo answers agree with the textual recogniser on the table keys *)
+Definition input_wf (i : input) : bool :=
+  let tbl := table_of i in
+  let c := ctx_of i in
+  let gai := gai_of tbl in
+  forallb (fun s => is_some (lookup tbl s)) (asked gai c (reqs_of i))
+  && plain_str (orig_ip c) && plain_str (orig_proto c)
+  && check_ipv (map fst tbl) (map (valid_ip gai) (map fst tbl)).
